@@ -50,6 +50,9 @@ func (c02) Gen(seed int64, tier string, avoid []string) *Plan {
 		cfg.Kinds = append(cfg.Kinds, "twcc_hdr")
 		cfg.KSeed = append(cfg.KSeed, r.Int63())
 	}
+	if chance(r, 300) {
+		cfg.RTCPWErrAt = 1 + r.Intn(6) // the transport fails one RTCP write (every other time as a closed pipe)
+	}
 	genRigTraffic(r, &cfg, p, tier, rigTrafficOpts{nackBias: chance(r, 300), observers: chance(r, 300), fbBias: needTWCC})
 	cfg = cfgOf[RigCfg](p)
 	if needTWCC {
